@@ -384,6 +384,19 @@ def _outcome(f):
         return {"exc": type(e).__name__, "sigma": False}
 
 
+def _siblings(B):
+    """renderings of leaves of every operator shape (plain and case-sensitive) and of the swapped value kinds"""
+    out = []
+    for cls in (SigmaString, SigmaCasedString):
+        for val in ("pre*", "*suf", "*mid*", "plain", "a*b"):
+            w = cls(val)
+            out.append(_outcome(lambda w=w: Backend.convert_condition_field_eq_val(B(), ConditionFieldEqualsValueExpression("f", w), ConversionState())))
+    out.append(_outcome(lambda: Backend.convert_condition_field_eq_val(B(), ConditionFieldEqualsValueExpression("f", SigmaRegularExpression("a.b")), ConversionState())))
+    if getattr(B, "cidr_expression", None) is not None:
+        out.append(_outcome(lambda: Backend.convert_condition_field_eq_val(B(), ConditionFieldEqualsValueExpression("f", SigmaCIDRExpression("10.0.0.0/8")), ConversionState())))
+    return out
+
+
 def run_leaf(case):
     cfg = case["cfg"]
     if cfg["family"] == "vb":
@@ -436,11 +449,17 @@ def run_leaf(case):
         leaf = ConditionValueExpression(v)
         out["r"] = _outcome(lambda: b.convert_condition_val(leaf, st))
         out["rn"] = out["r"]
+        out["r2"] = out["r"]
     else:
         leaf = ConditionFieldEqualsValueExpression(f, v)
+        out["sib0"] = _siblings(B)
         out["r"] = _outcome(lambda: Backend.convert_condition_field_eq_val(b, leaf, st))
         def neg():
             with b.not_equals_context_manager(True):
                 return Backend.convert_condition_field_eq_val(b, leaf, st)
         out["rn"] = _outcome(neg)
+        # the class-level templates must be back in place after the negated-template context:
+        # the same leaf again and sibling leaves of every operator shape, on the same class
+        out["r2"] = _outcome(lambda: Backend.convert_condition_field_eq_val(b, leaf, st))
+        out["sib1"] = _siblings(B)
     return out
